@@ -3,6 +3,7 @@
   unparse-all       every Python file re-printed from its ast (formatting, comments)
   rename-locals     every function-local variable that is safe to rename gets a new name (x -> x_r)
   invert-branches   `if c: A else: B` with a simple test becomes `if not c: B else: A`
+  return-via-local  `return <expr>` becomes `rv_ = <expr>; return rv_`
 
 A rule that depends on how a local is called, or on which arm of an `if` is written first, alarms or errs on these."""
 from __future__ import annotations
@@ -150,6 +151,44 @@ class _Invert(ast.NodeTransformer):
         return n
 
 
+class _ReturnViaLocal(ast.NodeTransformer):
+    """`return <expr>` becomes `rv_ = <expr>; return rv_` (not inside lambdas; generators and bare returns untouched)"""
+
+    def __init__(self):
+        self.count = 0
+
+    def _body(self, stmts):
+        out = []
+        for st in stmts:
+            st = self.visit(st)
+            if isinstance(st, ast.Return) and st.value is not None and not isinstance(st.value, (ast.Name, ast.Constant)):
+                self.count += 1
+                tmp = ast.copy_location(ast.Assign(targets=[ast.Name(id='rv_', ctx=ast.Store())], value=st.value), st)
+                out.append(tmp)
+                out.append(ast.copy_location(ast.Return(value=ast.Name(id='rv_', ctx=ast.Load())), st))
+            else:
+                out.append(st)
+        return out
+
+    def generic_visit(self, node):
+        for fld in ('body', 'orelse', 'finalbody'):
+            v = getattr(node, fld, None)
+            if isinstance(v, list) and v and isinstance(v[0], ast.stmt):
+                setattr(node, fld, self._body(v))
+        if isinstance(node, ast.Try):
+            for h in node.handlers:
+                h.body = self._body(h.body)
+        if isinstance(node, ast.Match):
+            for c in node.cases:
+                c.body = self._body(c.body)
+        if isinstance(node, (ast.With, ast.AsyncWith)):
+            pass
+        return node
+
+    def visit_Lambda(self, node):
+        return node
+
+
 def apply(kind: str, root: str) -> int:
     total = 0
     for fp in _py_files(root):
@@ -160,6 +199,10 @@ def apply(kind: str, root: str) -> int:
             total += rename_locals_in(tree)
         elif kind == 'invert-branches':
             t = _Invert()
+            tree = t.visit(tree)
+            total += t.count
+        elif kind == 'return-via-local':
+            t = _ReturnViaLocal()
             tree = t.visit(tree)
             total += t.count
         elif kind == 'unparse-all':
